@@ -75,6 +75,13 @@ bool splinetable<Alloc>::write_key(const char* key, const T& value){
 	if (reservedFitsKeyword(key))
 		throw std::runtime_error("Cannot set key with reserved name "+std::string(key));
 	size_t keylen = strlen(key) + 1;
+	//cfitsio drops blanks around a keyword and the HIERARCH prefix itself, and
+	//a card without a keyword is commentary, so none of these would come back
+	if (keylen<2)
+		throw std::runtime_error("FITS header keywords must not be empty");
+	if (key[0]==' ' || key[keylen-2]==' ' || strncmp("HIERARCH ", key, 9)==0)
+		throw std::runtime_error("FITS header keywords must not begin or end with a blank, "
+		                         "or begin with 'HIERARCH ' (key was '"+std::string(key)+"')");
 	size_t maxdatalen=68; //valid for short keys
 	if(keylen<=9){ //up to 8 bytes of data
 		for(size_t i=0; i<keylen-1; i++){
@@ -118,7 +125,9 @@ bool splinetable<Alloc>::write_key(const char* key, const T& value){
 	size_t valuelen = valuedata.size() + 1;
 	//For normal (short) keys, we get up to 68 bytes of storage, but for longer keywords
 	//the 'HIERARCH Keyword Convention' kicks in and limits us further
-	if(valuelen-1>maxdatalen){
+	//every single quote inside the value takes two characters on the card
+	size_t nquotes = std::count(valuedata.begin(),valuedata.end(),'\'');
+	if(valuelen-1+nquotes>maxdatalen){
 		throw std::runtime_error("Value is too long to be stored as a FITS keyword ('"
 								 +valuedata+"' has length "+std::to_string(valuelen-1)
 								 +", but a maximum of "+std::to_string(maxdatalen)+
